@@ -266,7 +266,9 @@ func cmdCheck(args []string) int {
 	var trusted []string
 	for _, key := range S.Order {
 		ct := S.Contracts[key]
-		if ct.Trusted {
+		if ct.Trusted && !ct.Lib {
+			// an unverified contract on a repository function (none at present); assumed library /
+			// interface contracts are listed where they are used ("assumed contract used: ...")
 			trusted = append(trusted, "assumed contract: "+key)
 		}
 	}
